@@ -43,12 +43,12 @@ def replay_file(path):
         print('no failing input was found; the file carries the failed obligation and the solver output:')
         print(json.dumps({k: d[k] for k in ('function', 'obligation', 'goal', 'reason') if k in d}, indent=1))
         return 0
-    if 'state' in d and 'args' in d:
+    if d.get('function', '').endswith('.add_interaction') and 'history' in d and 'args' in d:
         from pyvc.engine import Engine
         mod = importlib.import_module('contracts.kernel')
-        cls = d['state']['class']
-        c = mod.AddInteraction(cls)
-        rep = c.replay(Engine(), d['state'], tuple(d['args']))
+        c = mod.AddInteraction(d['class'])
+        rep = c.replay_history(Engine(), d['edge_removal'], [tuple(x) for x in d['history']] + [tuple(d['args'])])
+        print('history:', d['history'], '(edge_removal=%s, %s)' % (d['edge_removal'], d['class']))
         print('call   :', rep['call'])
         print('outcome:', rep['outcome'])
         print('violated clauses on the real code:', sorted(rep['violated']))
